@@ -168,9 +168,30 @@ def run(call: GeneratorCall) -> Module:
         # Check for circular dependencies.
         # Note this uses a hash-set of `GeneratorCall`s, so only hashable ones get checked.
         if call in the_cache.pending:
+            the_cache.stack.pop()
             msg = f"Invalid self referencing/ circular dependency in `{call}`"
             raise RuntimeError(msg)
         the_cache.pending.add(call)
+
+    try:
+        m = _run(call)
+    finally:
+        # Whether the call succeeded or raised, it is no longer in flight.
+        # (A generator whose body raised can simply be called again.)
+        the_cache.stack.pop()
+        if call.gen.enable_cache:
+            the_cache.pending.discard(call)
+
+    # Store the result in our cache
+    if call.gen.enable_cache:
+        the_cache.done[call] = m
+
+    # And return the generated Module
+    return m
+
+
+def _run(call: GeneratorCall) -> Module:
+    """Run the generator-function of `call`, check and name its result."""
 
     # Check that the call has a valid instance of the generator's parameter-class
     if not isinstance(call.params, call.gen.Params):
@@ -201,13 +222,6 @@ def run(call: GeneratorCall) -> Module:
         if hasparams(call.gen.Params):
             m.name += "(" + _unique_name(call.params) + ")"
 
-    # Store the result in our cache, and on the Call.
-    the_cache.stack.pop()
-    if call.gen.enable_cache:
-        the_cache.pending.remove(call)
-        the_cache.done[call] = m
-
-    # And return the generated Module
     return m
 
 
